@@ -293,7 +293,7 @@ def run(ctx):
     t_setup = time.time() - t0
 
     rng = ctx.rng
-    n_ws = 40 if ctx.quick else 400
+    n_ws = 40 if ctx.quick else 1000
     wss = list(CORPUS) + [gen_ws(rng) for _ in range(n_ws)]
     ides = sl.idedump(bindir, [{"files": [[p, t] for p, t in sorted(w["files"].items())], "root": "main.td",
                                 "offsets": "all", "completion": False} for w in wss])
